@@ -146,7 +146,7 @@ class Scene:
                 with open(p, "wb") as f:
                     f.write(b"user-edit-%d-" % rng.randrange(10**6) + rel.encode())
                 done.append(["replace_uncached", rel])
-            elif r < 0.33 and "replace_uncached" in kinds and not os.path.islink(p):
+            elif r < (0.75 if "restore" in kinds else 0.33) and "replace_uncached" in kinds and not os.path.islink(p):
                 # a different file of the same size with the old timestamps moved into place (cp -p, rsync -t, a restore):
                 # only the inode tells it from the checked-out one
                 st = os.stat(p)
